@@ -82,33 +82,37 @@ def integral_ref(merged, tpb, T):
 
 
 class FakeTime:
-    """Fake clock + sleep.  play() reads now() once before the loop and once per round, so the
-    number of now() calls identifies the round; sched[r] = (consumer delay before round r, sleep
-    overshoot in round r), both in micro-ticks."""
+    """Fake clock + sleep.  sched[r] = (consumer delay before round r, sleep overshoot in round r), both in micro-ticks;
+    round r belongs to the r-th message of the merged track.  The round a sleep belongs to is found from the schedule
+    itself (the first message after the one handed out last that is not yet due), not from how often play() reads the
+    clock, so an implementation may read it as often as it likes."""
 
-    def __init__(self, start, sched, unit):
+    def __init__(self, start, sched, unit, sched_times=()):
         self.clock = start
         self.sched = list(sched)
         self.unit = unit
-        self.calls = 0
+        self.sched_times = list(sched_times)
+        self.kprev = -1          # index in the merged track of the message handed out last
         self.sleep_by_round = {}
-
-    @property
-    def round(self):
-        return self.calls - 2
+        self.stray = []          # real sleeps while nothing later is scheduled
 
     def now(self):
-        self.calls += 1
         return self.clock
 
     def sleep(self, d):
-        r = self.round
-        extra = self.sched[r][1] if 0 <= r < len(self.sched) else 0
-        if d <= 0.25 * self.unit:
-            extra = 0        # float dust around an exactly-zero remaining time is not a real sleep
-        self.sleep_by_round[r] = (d, self.clock)
         if d < 0:
             raise ValueError('sleep length must be non-negative')
+        if d <= 0.25 * self.unit:
+            self.clock += d      # float dust around an exactly-zero remaining time is not a real sleep
+            return
+        r = next((j for j in range(self.kprev + 1, len(self.sched_times)) if self.sched_times[j] > self.clock + 0.25 * self.unit), None)
+        if r is None:
+            self.stray.append((d, self.clock))
+            self.clock += d
+            return
+        extra = self.sched[r][1] if r < len(self.sched) else 0
+        d0, at0 = self.sleep_by_round.get(r, (0.0, self.clock))
+        self.sleep_by_round[r] = (d0 + d, at0)
         self.clock += d + extra * self.unit
 
 
@@ -187,7 +191,9 @@ def impl_case(case):
     # play
     if ty != 2 and fail is None:
         unit = 1.0 / (1000000 * tpb)
-        ft = FakeTime(case['start'] * unit, case['sched'], unit)
+        sched_times = [case['start'] * unit + float(integral_ref(merged, tpb, t)) for (_d, _tp, _n, t) in merged]
+        ft = FakeTime(case['start'] * unit, case['sched'], unit, sched_times)
+        expect = [(m, mm, k) for k, (m, mm) in enumerate(zip(msgs, merged)) if case['meta'] or not m.is_meta]
         real_time = MF.time
 
         class Shim:
@@ -205,25 +211,24 @@ def impl_case(case):
                     m = next(gen)
                 except StopIteration:
                     break
-                r = ft.round
+                r = expect[len(played)][2] if len(played) < len(expect) else len(merged)
+                ft.kprev = r
                 played.append((m, ft.clock, r))
                 # the consumer dawdles before asking for the next message: delay of round r+1
                 delay = case['sched'][r + 1][0] if r + 1 < len(case['sched']) else 0
                 ft.clock += delay * unit
             out['play'] = {'yields': [(r, c) for m, c, r in played], 'sleeps': dict(ft.sleep_by_round), 'start': start}
-            expect = [(m, mm, k) for k, (m, mm) in enumerate(zip(msgs, merged)) if case['meta'] or not m.is_meta]
             if [m.type for m, _, _ in played] != [m.type for m, _, _ in expect] or \
                     any(vars(a) != vars(b) for (a, _, _), (b, _, _) in zip(played, expect)):
                 fail = 'play() does not yield the messages of iteration (meta only on request)'
             else:
-                sched_times = [start + float(integral_ref(merged, tpb, t)) for (_d, _tp, _n, t) in merged]
                 for (m, c, r), (m0, _mm, k) in zip(played, expect):
-                    if r != k:
-                        fail = f'round bookkeeping of the harness broke ({r} != {k})'
-                        break
                     if c < sched_times[k] - tol(sched_times[k], len(msgs)):
                         fail = f'play() yielded {m!r} at clock {c!r}, before its scheduled time {sched_times[k]!r}'
                         break
+                if fail is None and ft.stray:
+                    fail = (f'play() slept {ft.stray[0][0]!r} at clock {ft.stray[0][1]!r} although no remaining message is '
+                            f'scheduled later than that')
                 if fail is None:
                     for r, (d, at) in ft.sleep_by_round.items():
                         want = sched_times[r] - at
